@@ -445,11 +445,13 @@ class SocketConnection(object):
             self.sock.shutdown(socket.SHUT_RDWR)
         with contextlib.suppress(Exception):
             self.sock.close()
-        self.pyroInstances = {}   # release the session instances
         for rsc in list(self.tracked_resources):    # (a snapshot: closing a resource may track or untrack resources)
             with contextlib.suppress(Exception):
                 rsc.close()     # it is assumed a 'resource' has a close method.
         self.tracked_resources.clear()
+        # release the session instances - only now: the tracked set holds weak references, and a resource may be
+        # kept alive by nothing but an attribute of its session instance
+        self.pyroInstances = {}
 
     def fileno(self) -> int:
         return self.sock.fileno()
